@@ -481,3 +481,118 @@ Proof.
   intros text l H. destruct (parse_accepts_only_wf text l H) as [_ F].
   eapply Forall_impl; [|exact F]. intros s Hs. apply format_parse_roundtrip; exact Hs.
 Qed.
+
+(* ================================================================== the normalisation does not change the schedule *)
+(* two clock spans / windows that differ at most in the spread flag of an EMPTY span / window *)
+Definition span_rel (a b : clockspan) : Prop :=
+  cs_start a = cs_start b /\ cs_end a = cs_end b /\ (spread a = spread b \/ cs_end a = cs_start a).
+Definition win_rel (a b : window) : Prop :=
+  w_start a = w_start b /\ w_end a = w_end b /\ (w_spread a = w_spread b \/ w_start a = w_end a).
+Definition owin_rel (a b : option window) : Prop :=
+  match a, b with
+  | None, None => True
+  | Some x, Some y => win_rel x y
+  | _, _ => False
+  end.
+
+Lemma span_rel_refl : forall a, span_rel a a.
+Proof. intros a; repeat split; auto. Qed.
+
+Lemma window_of_rel : forall a b D, span_rel a b -> win_rel (window_of a D) (window_of b D).
+Proof.
+  intros a b D (H1 & H2 & H3). unfold win_rel, window_of; cbn [w_start w_end w_spread]. rewrite H1, H2.
+  split; [reflexivity|]. split; [reflexivity|]. destruct H3 as [H3|H3]; [left; exact H3 | right].
+  rewrite <- H1, <- H2, H3. rewrite Z.ltb_irrefl. reflexivity.
+Qed.
+
+Lemma pick_rel : forall now last D acc1 acc2 a b, owin_rel acc1 acc2 -> span_rel a b ->
+  owin_rel (pick now last D acc1 a) (pick now last D acc2 b).
+Proof.
+  intros now last D acc1 acc2 a b HA HS. pose proof (window_of_rel a b D HS) as (E1 & E2 & E3).
+  unfold pick. rewrite E1, E2.
+  destruct (w_end (window_of b D) <? now)%Z; [exact HA|].
+  destruct ((w_start (window_of b D) <=? last)%Z && (last <=? w_end (window_of b D))%Z); [exact HA|].
+  assert (W : win_rel (window_of a D) (window_of b D)) by (repeat split; assumption).
+  destruct acc1 as [x|], acc2 as [y|]; cbn in HA; try contradiction; [|exact W].
+  destruct HA as (A1 & A2 & A3). rewrite A1.
+  destruct (w_start (window_of b D) <? w_start y)%Z; [exact W | repeat split; assumption].
+Qed.
+
+Lemma fold_pick_rel : forall now last D t1 t2, Forall2 span_rel t1 t2 ->
+  forall acc1 acc2, owin_rel acc1 acc2 ->
+  owin_rel (fold_left (pick now last D) t1 acc1) (fold_left (pick now last D) t2 acc2).
+Proof.
+  intros now last D t1 t2 F. induction F as [|a b t1 t2 R F IH]; intros acc1 acc2 HA; [exact HA|].
+  cbn [fold_left]. apply IH. apply pick_rel; assumption.
+Qed.
+
+Lemma week_ok_same : forall s1 s2 D, weekspans s1 = weekspans s2 -> week_ok s1 D = week_ok s2 D.
+Proof. intros s1 s2 D H. unfold week_ok. rewrite H. reflexivity. Qed.
+
+Lemma next_from_rel : forall fuel s1 s2 t1 t2 now last t,
+  weekspans s1 = weekspans s2 -> Forall2 span_rel t1 t2 ->
+  owin_rel (next_from fuel s1 t1 now last t) (next_from fuel s2 t2 now last t).
+Proof.
+  induction fuel as [|f IH]; intros s1 s2 t1 t2 now last t HW F; [exact I|].
+  cbn [next_from]. rewrite (week_ok_same s1 s2 _ HW).
+  destruct (negb (week_ok s2 (t / 86400)%Z)); [apply IH; assumption|].
+  pose proof (fold_pick_rel now last (t / 86400)%Z t1 t2 F None None I) as R.
+  destruct (fold_left (pick now last (t / 86400)%Z) t1 None) as [x|],
+           (fold_left (pick now last (t / 86400)%Z) t2 None) as [y|]; cbn in R; try contradiction; [|apply IH; assumption].
+  destruct R as (R1 & R2 & R3). rewrite R2.
+  destruct (w_end y <? now)%Z; [apply IH; assumption | repeat split; assumption].
+Qed.
+
+Lemma clock_spans_norm_rel : forall c, Forall2 span_rel (clock_spans (norm_cs c)) (clock_spans c).
+Proof.
+  intros c. unfold norm_cs. destruct (clock_eqb (cs_end c) (cs_start c)) eqn:E.
+  - unfold clock_spans; cbn [split cs_end cs_start]. rewrite E, !orb_true_r. cbn [Z.eqb orb].
+    constructor; [|constructor]. repeat split; cbn [cs_start cs_end]; auto. right. apply clock_eqb_eq; exact E.
+  - induction (clock_spans c) as [|x l IH]; constructor; [apply span_rel_refl | exact IH].
+Qed.
+
+Lemma flat_map_rel : forall C, Forall2 span_rel (flat_map clock_spans (map norm_cs C)) (flat_map clock_spans C).
+Proof.
+  induction C as [|c C IH]; [constructor|]. cbn [map flat_map]. apply Forall2_app; [apply clock_spans_norm_rel | exact IH].
+Qed.
+
+Lemma flattened_norm_rel : forall s, Forall2 span_rel (flattened (norm_sched s)) (flattened s).
+Proof.
+  intros s. unfold flattened, norm_sched; cbn [clockspans].
+  destruct (clockspans s) as [|c C] eqn:E.
+  - cbn [map]. induction (flat_map clock_spans [mkCS (mkClock 0 0) (mkClock 0 0) 0 false]) as [|x l IH];
+      constructor; [apply span_rel_refl | exact IH].
+  - cbn [map]. change (norm_cs c :: map norm_cs C) with (map norm_cs (c :: C)). apply flat_map_rel.
+Qed.
+
+Lemma existsb_includes_rel : forall t D l1 l2, Forall2 span_rel l1 l2 ->
+  existsb (span_includes t D) l1 = existsb (span_includes t D) l2.
+Proof.
+  intros t D l1 l2 F. induction F as [|a b l1 l2 R F IH]; [reflexivity|].
+  cbn [existsb]. rewrite IH. f_equal. pose proof (window_of_rel a b D R) as (E1 & E2 & _).
+  unfold span_includes. rewrite E1, E2. reflexivity.
+Qed.
+
+(* the normalised schedule denotes the same schedule: Includes agrees everywhere, and Next returns windows with the same
+   start and end (the spread flag can differ only on an empty window, where the random spread is 0 anyway) *)
+Theorem norm_sched_equivalent : forall (s : schedule),
+  (forall t, sched_includes (norm_sched s) t = sched_includes s t) /\
+  (forall fuel last now, owin_rel (sched_next fuel (norm_sched s) last now) (sched_next fuel s last now)).
+Proof.
+  intros s. split.
+  - intros t. unfold sched_includes. rewrite (week_ok_same (norm_sched s) s _ eq_refl).
+    rewrite (existsb_includes_rel t _ _ _ (flattened_norm_rel s)). reflexivity.
+  - intros fuel last now. unfold sched_next. apply next_from_rel; [reflexivity | apply flattened_norm_rel].
+Qed.
+
+(* (i) the round trip for all well-formed schedules, with the result equivalent to the original *)
+Theorem roundtrip_equivalent : forall s : schedule, sched_ok s = true ->
+  exists s', parse_schedule (fmt_sched s) = Some [s'] /\
+    (forall t, sched_includes s' t = sched_includes s t) /\
+    (forall fuel last now, owin_rel (sched_next fuel s' last now) (sched_next fuel s last now)).
+Proof.
+  intros s H. exists (norm_sched s). split; [apply format_parse_roundtrip; exact H|]. apply norm_sched_equivalent.
+Qed.
+
+Lemma sched_ok_wf : forall s, sched_ok s = true -> sched_wf s = true.
+Proof. intros s H. unfold sched_ok in H. apply andb_true_iff in H as [H _]. apply andb_true_iff in H as [H _]. exact H. Qed.
